@@ -190,6 +190,7 @@ func init() {
 			return nil
 		},
 		// SymbolicClock(): from here on time.Now() returns an arbitrary non-decreasing instant (environment stub)
+		"ClockTick": func(fr *frame, args []value) value { return nil },
 		"SymbolicClock": func(fr *frame, args []value) value {
 			fr.i.x.symClock = true
 			return nil
